@@ -119,6 +119,10 @@ type Case struct {
 	TTInterval  int                `json:"tt_interval_ms"`
 	SrcChanNum  int                `json:"source_channel_num"`
 	DstChanNum  int                `json:"target_channel_num"`
+	// MsgPositions: messages carry their own position (channel, message id), as older / patched Milvus
+	// dispatchers deliver them. The dispatcher of the Milvus pkg pinned in go.mod delivers messages WITHOUT a
+	// position (MqTtMsgStream no longer sets one), which is the default here.
+	MsgPositions bool              `json:"msg_positions"`
 	Serial      bool               `json:"serial_feed,omitempty"` // feed one pack at a time across all pchannels in a seeded order
 	FeedOrder   []string           `json:"feed_order,omitempty"`
 	Note        string             `json:"note,omitempty"`
